@@ -127,7 +127,7 @@ class Blake2(Blake):
     def initstate(self,salt=b'',pers=b'',keylen=0,**kargs):
         super(Blake2,self).initstate(0)
         self.padmethod = Nullpadding(self.blocksize)
-        self.outlen = kargs.get('outlen',self.outlen)
+        self.outlen = kargs.get('outlen',self.size//8)
         self.rounds = 12 if self.size>256 else 10
         l = self.wsize//4
         if salt == b'': salt = b'\0'*l
